@@ -466,6 +466,13 @@ def run_unit(unit, tier):
             once(dt, s, '2.5')
         for s in ('0.0000001', '0.00000001', '123456.000001', '1.10', '10', '100', '1000', '00', '007', '-0', '0.0', '-0.50'):
             once(dt, s, '2.5')
+        if dt == 'NM':
+            # many significant digits (the length limit is STRICT's business; TOLERANT keeps the number as written)
+            digits = '1234567891234567891234567'
+            for n in range(14, 25):
+                for s in (digits[:n], '3.' + digits[:n - 1], '+' + '9' * n, '-0.' + '0' * 5 + digits[:n], digits[:n - 3] + '.' + digits[:3]):
+                    once(dt, s, '2.5')
+                    once(dt, s, '2.7')
         res.dims['%s short strings' % dt] += res.states
     elif kind == 'subst':
         v = unit[1]
